@@ -209,6 +209,8 @@ def gauge_case(ctx, idx, rng):
     i = idx % (L - 1)
     ukind = ('random', 'identity', 'swap', 'phases', 'rotation')[(idx // 7) % 5]
     kind = str(rng.choice(['complex', 'real', 'hermitian', 'zero-padded'] + (KINDS + ['free', 'no-hopping'] if idx % 2 else [])))
+    if idx % 6 == 1:
+        kind = ('free', 'sym-ij', 'fully-symmetric', 'no-hopping', 'symmetric', 'imaginary-vint')[(idx // 6) % 6]          # the vanishing / cancelling interaction classes in fixed rotation
     if kind in ('free', 'no-hopping'):
         # one of the two coefficient tensors identically zero (free fermions / pure interaction)
         t, v = coeffs(rng, L, 'complex')
